@@ -387,4 +387,7 @@ class FormulaSum(Harness):
 
 
 def harnesses(tier):
-    return [SubstanceGet(False), SubstanceGet(True), Formula(11), FormulaSum(['H', 'H'], 10), FormulaSum(['H', 'O', 'H'], 3 if tier == 'quick' else 10)]
+    hs = [SubstanceGet(False), SubstanceGet(True), Formula(11), FormulaSum(['H', 'H'], 10), FormulaSum(['H', 'O', 'H'], 3 if tier == 'quick' else 10)]
+    if tier == 'thorough':
+        hs += [FormulaSum(['H', 'O', 'H', 'O'], 10), FormulaSum(['O', 'H', 'O', 'H', 'O', 'H'], 4)]
+    return hs
